@@ -3,8 +3,10 @@ Driver side of the composite-v1 work-package:
 
 * stateful mode `lib1`: the whole-library Model `EngineModel.Lib.V1` answering the script lines of
   harness/djv_db.cpp (crate / track / database commands), djv_cratesv1.cpp (`v1.obs`), djv_monitors.cpp (`reopen`)
-  and djv_lib1.cpp (`lib1.dump`, `lib1.tobs`, `lib1.pragmas`, `lib1.mark`).  Every line is ONE `Lib.V1.Call` stepped
-  through `Lib.V1.step` (or a dump / observation of the state).  After every state-changing call the mode re-checks
+  and djv_lib1.cpp (`lib1.dump`, `lib1.tobs`, `lib1.pragmas`, `lib1.mark`, `lib1.plantrefs`).  Every line is ONE
+  `Lib.V1.CallR` (a public call, or the environment step `plantRefs`) stepped through `Lib.V1.stepR` (Lib/V1Refs.lean: the
+  composite step + the rows of PlaylistTrackList / HistorylistTrackList / PreparelistTrackList / CopiedTrack) or a dump /
+  observation of the state.  After every state-changing call the mode re-checks
   the executable invariant `libInvRaw` on its own state (a theorem: `bad-op libinv-broken` would be a divergence).
 * stateful mode `lib1oracle` (direct oracle): `inv <schema> <real dump…>` parses the dump the HARNESS printed and
   evaluates the same `libInvRaw` / `fkViolationsAll` on it.
@@ -13,6 +15,7 @@ import EngineModel.Driver.Cmds.CratesV1
 import EngineModel.Driver.Cmds.CratesV1Oracle
 import EngineModel.Driver.Cmds.TracksV1
 import EngineModel.Lib.V1
+import EngineModel.Lib.V1Refs
 
 namespace Drv.Lib1
 open EngineModel EngineModel.Text EngineModel.Lib.V1
@@ -23,6 +26,7 @@ abbrev Id := Int
 structure St where
   schema : Option VSchema := none
   L : Lib1 := Lib1.empty .s1_6_0 [] [] []
+  refs : List (RefTable × Id) := []      -- rows of the four other tables with a key to Track (Lib/V1Refs.lean)
   cvars : List (String × Id) := []
   tvars : List (String × Id) := []
 
@@ -73,7 +77,7 @@ def optI : Option Int → String
   | none => "null"
 
 /-- Mirror of `lib1.dump`. -/
-def dumpText (s : VSchema) (L : Lib1) : String :=
+def dumpText (s : VSchema) (L : Lib1) (refs : List (RefTable × Id) := []) : String :=
   let r := raw L
   let d := toDetect s
   Drv.CratesV1.rawText d L.cr ++
@@ -82,7 +86,7 @@ def dumpText (s : VSchema) (L : Lib1) : String :=
   " MI " ++ Drv.CratesV1.rawPairs r.metaInt ++
   " PD " ++ rowsOr ((sortInts r.perf).map fun i => s!"({i})") ++
   " AA " ++ rowsOr ((sortInts r.albumArt).map fun i => s!"({i})") ++
-  " OT " ++ rowsOr (r.otherTrackRefs.map fun x => s!"({x.1},{x.2})") ++
+  " OT " ++ rowsOr (((refCodes s refs).mergeSort fun a b => a.1 < b.1 || (a.1 == b.1 && a.2 ≤ b.2)).map fun x => s!"({x.1},{x.2})") ++
   " IM " ++ rowsOr (r.infoM.map infoText) ++ " IP " ++ rowsOr (r.infoP.map infoText) ++
   " SEQ " ++ (if Api.CratesV1.trackAutoinc d then (if L.cr.trackSeq == 0 then "()" else s!"({L.cr.trackSeq})") else "-") ++
   String.join ((Drv.TracksV1.sortByKey L.tr.tracks).map fun e => s!" R {e.1} " ++ Drv.TracksV1.sRows s e.2)
@@ -112,13 +116,13 @@ def withT (st : St) (v : String) (k : Id → St × String) : St × String :=
 
 /-- Step one call; after a mutating call the executable invariant is re-checked on the model's own state. -/
 def call (st : St) (s : VSchema) (c : Call) (bind : St → Id → St := fun st _ => st) : St × String :=
-  let (L', r) := step fops s st.L c
-  let st' := { st with L := L' }
+  let (R', r) := stepR fops s ⟨st.L, st.refs⟩ (.api c)
+  let st' := { st with L := R'.lib, refs := R'.refs }
   let st' := match r with
     | .ok (.id i) => bind st' i
     | _ => st'
-  if !c.isObserver && !libInvRaw s (raw L') then
-    (st', "bad-op libinv-broken " ++ ",".intercalate (libFailures s (raw L')))
+  if !c.isObserver && !libInvRaw s (rawR s R') then
+    (st', "bad-op libinv-broken " ++ ",".intercalate (libFailures s (rawR s R')))
   else (st', rres outPlain r)
 
 def hexArg (st : St) (h : String) (k : Bytes → St × String) : St × String :=
@@ -143,6 +147,16 @@ def step1 (st : St) (cmd : String) (args : List String) : St × String :=
   | some s =>
   match cmd, args with
   | "lib1.mark", [] => (st, "ok nonempty nonempty distinct")
+  | "lib1.plantrefs", v :: _ =>       -- `lib1.plantrefs <t> nulls`: same rows, other columns NULL (not modelled)
+    withT st v fun t =>
+    let (R', r) := stepR fops s ⟨st.L, st.refs⟩ (.plantRefs t)
+    let st' := { st with L := R'.lib, refs := R'.refs }
+    if !libInvRaw s (rawR s R') then (st', "bad-op libinv-broken " ++ ",".intercalate (libFailures s (rawR s R')))
+    else match r with
+      | .ok (.bool true) => (st', "ok planted fk " ++ (if (fkViolationsAll (rawR s R')).isEmpty then "()" else "MODEL-FK-VIOLATIONS"))
+      | .ok _ => (st', "ok skipped")
+      | .throw e => (st', "throw " ++ e.toString)
+      | .ub u => (st', "ub " ++ u.toString)
   | "mkroot", [v, n] => hexArg st n fun n => call st s (.createRootCrate n) fun st i => { st with cvars := put st.cvars v i }
   | "mkroot_after", [v, n, a] =>
     hexArg st n fun n => withC st a fun a => call st s (.createRootCrateAfter n a) fun st i => { st with cvars := put st.cvars v i }
@@ -266,10 +280,12 @@ def step1 (st : St) (cmd : String) (args : List String) : St × String :=
         (Api.CratesV1.observe d st.L.cr (st.cvars.map (·.2)) (st.tvars.map (·.2)) ns))
     | none => (st, "bad-op hex")
   | "lib1.tobs", [] => (st, "ok " ++ tobsText s st)
-  | "lib1.dump", [] => (st, "ok " ++ dumpText s st.L)
+  | "lib1.dump", [] => (st, "ok " ++ dumpText s st.L st.refs)
   | "lib1.pragmas", [] =>
-    let fk := fkViolationsAll (raw st.L)
+    let fk := fkViolationsAll (rawR s ⟨st.L, st.refs⟩)
     (st, "ok fkm " ++ (if fk.isEmpty then "()" else "MODEL-FK-VIOLATIONS") ++ " fkp () icm (s6f6b) icp (s6f6b)")
+  | "lib1.fk", [] =>
+    (st, "ok fk " ++ (if (fkViolationsAll (rawR s ⟨st.L, st.refs⟩)).isEmpty then "()" else "MODEL-FK-VIOLATIONS"))
   | "lib1.bk", [] => (st, "ok -")
   | "reopen", [] =>
     match reload s st.L with
@@ -279,7 +295,7 @@ def step1 (st : St) (cmd : String) (args : List String) : St × String :=
         | _ => false
       let cv := st.cvars.filter fun e => live .crateById e.2
       let tv := st.tvars.filter fun e => live .trackById e.2
-      ({ schema := some s', L := L', cvars := cv, tvars := tv },
+      ({ schema := some s', L := L', refs := st.refs, cvars := cv, tvars := tv },
         s!"ok {s'.name} crates={cv.length} tracks={tv.length}")
     | none => (st, "throw unsupported_database")
   | _, _ => (st, "bad-op unknown")
